@@ -945,6 +945,105 @@ static void cmd_bulk(Toks &T)
     j.done();
 }
 
+// hold <e> <k>: k more copies of edge e are created and kept in a pool
+// drop <k>    : the k most recent copies in the pool are released
+static std::vector<dd_edge*> pool;
+static void cmd_hold(Toks &T)
+{
+    int e = T.nexti(); long k = T.nextl();
+    J j("Hold"); j.i("s", e).i("k", k);
+    try {
+        dd_edge &E = getE(e);
+        for (long x=0; x<k; x++) pool.push_back(new dd_edge(E));
+        int fi = forestIndexOf(E);
+        j.i("ok", 1).i("pool", long(pool.size()))
+         .i("inc", (fi>=0 && E.getNode()>0) ? long(getF(fi).f->getNodeInCount(E.getNode())) : -1);
+    } catch (error er) {
+        j.i("ok", 0).s("err", errname(er.getCode()));
+    }
+    j.done();
+}
+static void cmd_drop(Toks &T)
+{
+    long k = T.nextl();
+    J j("Drop"); j.i("k", k);
+    try {
+        for (long x=0; x<k && !pool.empty(); x++) { delete pool.back(); pool.pop_back(); }
+        j.i("ok", 1).i("pool", long(pool.size()));
+    } catch (error er) {
+        j.i("ok", 0).s("err", errname(er.getCode()));
+    }
+    j.done();
+}
+
+// unode <e> <f> <level> <S|F> <n> { <index> <child> }     (expert interface)
+//   builds one node at <level> from an unpacked node filled in the given order
+//   (S: sparse, F: full) and stores the reduced result in edge e.  <child> is
+//   an edge slot (its function must not depend on variables at or above
+//   <level>) or T<value> for a terminal / constant edge.
+static void cmd_unode(Toks &T)
+{
+    int e = T.nexti(); int fi = T.nexti(); int level = T.nexti(); std::string mode = T.next(); int n = T.nexti();
+    For &F = getF(fi);
+    std::vector<long> idx; std::vector<std::string> ch;
+    for (int x=0; x<n; x++) { idx.push_back(T.nextl()); ch.push_back(T.next()); }
+    J j("UNode"); j.i("s", e).i("f", fi).i("lvl", level).s("mode", mode);
+    {
+        std::string k = "[";
+        for (int x=0; x<n; x++) {
+            if (x) k += ',';
+            if (ch[size_t(x)][0] == 'T') {
+                k += "{\"i\":" + std::to_string(idx[size_t(x)]) + ",\"c\":-1,\"v\":" + std::to_string(rv2long(mkval(F, parse_val(ch[size_t(x)].substr(1))))) + "}";
+            } else {
+                k += "{\"i\":" + std::to_string(idx[size_t(x)]) + ",\"c\":" + ch[size_t(x)] + ",\"v\":0}";
+            }
+        }
+        k += "]";
+        j.raw("kids", k);
+    }
+    try {
+        dd_edge &E = getE(e);
+        forest* f = F.f;
+        const unsigned lsz = unsigned(f->getLevelSize(level));
+        unpacked_node* U;
+        if (mode == "S") {
+            U = unpacked_node::newWritable(f, level, unsigned(n), SPARSE_ONLY);
+        } else {
+            U = unpacked_node::newWritable(f, level, lsz, FULL_ONLY);
+            U->clear(0, lsz);
+        }
+        for (int x=0; x<n; x++) {
+            edge_value ev; node_handle dn;
+            if (ch[size_t(x)][0] == 'T') {
+                dd_edge tmp(f);
+                f->createConstant(mkval(F, parse_val(ch[size_t(x)].substr(1))), tmp);
+                // a constant below the bottom of the node: only its terminal part is used
+                ev = tmp.getEdgeValue();
+                dn = tmp.getNode();
+                if (dn > 0) throw harness_error("unode: constant is not a terminal edge in this forest");
+            } else {
+                dd_edge &C = getE(atoi(ch[size_t(x)].c_str()));
+                ev = C.getEdgeValue();
+                dn = f->linkNode(C.getNode());
+            }
+            if (mode == "S") {
+                if (f->isMultiTerminal()) U->setSparse(unsigned(x), unsigned(idx[size_t(x)]), dn);
+                else U->setSparse(unsigned(x), unsigned(idx[size_t(x)]), ev, dn);
+            } else {
+                if (f->isMultiTerminal()) U->setFull(unsigned(idx[size_t(x)]), dn);
+                else U->setFull(unsigned(idx[size_t(x)]), ev, dn);
+            }
+        }
+        edge_value rv; node_handle rn;
+        f->createReducedNode(U, rv, rn);
+        E.set(rv, rn);
+        j.i("ok", 1).raw("res", describe(e, E, true));
+    } catch (error er) {
+        j.i("ok", 0).s("err", errname(er.getCode()));
+    }
+    j.done();
+}
+
 // coll <e> <f> <MAX|MIN|ONE> <deflt> <n> { <val> <vars...> }
 //   sets: K entries per minterm (-1 = don't care)
 //   relations: 2K entries: u_1..u_K p_1..p_K (-1 don't care, -2 don't change)
@@ -1494,7 +1593,10 @@ static void dispatch(Toks &T)
     else if (c == "del") cmd_del(T);
     else if (c == "attach") cmd_attach(T);
     else if (c == "bulk") cmd_bulk(T);
+    else if (c == "hold") cmd_hold(T);
+    else if (c == "drop") cmd_drop(T);
     else if (c == "coll") cmd_coll(T);
+    else if (c == "unode") cmd_unode(T);
     else if (c == "const") cmd_const(T);
     else if (c == "var") cmd_var(T);
     else if (c == "un") cmd_un(T);
